@@ -7,7 +7,7 @@ from checks.c08 import has_complete_group
 
 RULE = ("antichains of the hierarchy (no cell an ancestor of another), duplicates allowed, resolutions mixed across faces: "
         "complete enumeration of the bounded sub-hierarchy of C08, Hypothesis antichains (recursive split/keep/drop, deep "
-        "grafts) with permutations and duplications, long contiguous same-resolution runs (lengths around powers of 4 up to 4096), atheris (thorough). Oracle: set-based reference compaction "
+        "grafts; spines: a root refined along one path down to res 29 so that every level must merge) with permutations and duplications, long contiguous same-resolution runs (lengths around powers of 4 up to 4096), atheris (thorough). Oracle: set-based reference compaction "
         "(refids.ref_compact); output has no duplicates, equals the reference as a set, is the same for the generated orderings and for the numerically ascending (deduplicated) and descending orderings, and "
         "compact(compact(X)) == compact(X). Non-trivial = the reference result differs from set(X) (something had to merge) and "
         "X mixes >=2 resolutions across >=2 faces; distinct by the input list.")
@@ -82,7 +82,7 @@ def stage_enum(ctx):
 
 @st.composite
 def cases(draw):
-    base = draw(gens.antichains())
+    base = draw(st.one_of(gens.antichains(), gens.antichains(), gens.spines()))
     o1 = draw(gens.orderings(st.just(base)))
     o2 = draw(gens.orderings(st.just(base)))
     return {"cells": [hex(c) for c in base], "orderings": [[hex(c) for c in o1], [hex(c) for c in o2]]}
